@@ -61,7 +61,7 @@ Print Assumptions example_windows.
    Model.Rates (Lower: Tgas>=tmin, Upper: Tgas<tmax, mk_guard on Qpos_b) *)
 Open Scope string_scope.
 Theorem live_guard_text :
-  assign_rates_pieces = ["Tgas>={}"; "Tgas<{}"; "{}[{}] = {};"; "if ({}) {"; "{}[{}] = {};"; "}"] /\
+  assign_rates_pieces = ["Tgas>={}"; "Tgas<{}"; "if ({}) {"; "{}[{}] = {};"; "}"; "{}[{}] = {};"] /\
   assign_rates_tests = ["r.temp_min > 0"; "r.temp_max > 0"].
 Proof. split; reflexivity. Qed.
 Print Assumptions live_guard_text.
